@@ -14,6 +14,9 @@ META = {
     "trusted_base": ["64-bit only: the CAA_BITS_PER_LONG<64 two-phase qsbr variant is not analysed"],
 }
 
+META["explanation"] += " " + 'Also: bp registration discipline (read_lock registers iff the TLS reader pointer is NULL, slot linked before the pointer is published, releasing the slot clears the pointer).'
+META["technique"] = "static analysis: must-pass-through / dominance rules, store-buffering barrier pairing (x86-TSO table), branch-atom classification tables and constant agreement over normalised, flattened LLVM IR of every flavor's grace-period and read-side functions"
+
 
 def state_enum(m):
     """(CURRENT, OLD, INACTIVE) values of the flavor's reader-state enum"""
